@@ -135,22 +135,19 @@ func clampLimit(l int) int {
 }
 
 // verif:harness props=C14 tprops=C02 tier=quick native=yes weight=60
-// verif:bounds N=2 messages (thorough 3), any states, symbolic route r0|r1 and target t0|t1, symbolic received_at; filter: no route / route / route+target criterion, state criterion from {none, queued, dead, canceled} (thorough: all six), limit from {0,1} (thorough {0,1,1001} and preview_only on/off); cancel/requeue/resume by filter
+// verif:bounds N=2 messages, any states, symbolic route r0|r1 and target t0|t1, symbolic received_at; filter: no route / route / route+target criterion, state criterion from {none, queued, dead, canceled} (thorough: all six), limit from {0,1} (thorough {0,1,1001} and preview_only on/off); cancel/requeue/resume by filter
 func VerifC14FilterCriteria() {
 	manageFilterCore(true)
 }
 
 // verif:harness props=C14 tier=quick native=yes weight=30
-// verif:bounds N=2 messages (thorough 3), any states, symbolic received_at incl. ties; filter: before cursor absent/arbitrary, limit from {0,1,1001} (thorough adds -1,2), preview_only on/off; newest-first selection with id tie-break
+// verif:bounds N=2 messages, any states, symbolic received_at incl. ties; filter: before cursor absent/arbitrary, limit from {0,1,1001} (thorough adds -1,2), preview_only on/off; newest-first selection with id tie-break
 func VerifC14FilterOrder() {
 	manageFilterCore(false)
 }
 
 func manageFilterCore(criteria bool) {
-	n := 2
-	if vrt.Thorough() {
-		n = 3
-	}
+	n := 2 // (thorough widens the filter menus; three messages do not finish in reasonable time)
 	w := mNew(n, mOpts{routes: criteria})
 	pre := w.snap()
 	op := vrt.Choose("op", 3) // mgCancel, mgRequeue, mgResume
@@ -255,12 +252,9 @@ func manageFilterCore(criteria bool) {
 }
 
 // verif:harness props=C02 tier=quick native=yes weight=40
-// verif:bounds N=2 messages (thorough 3) in any state with arbitrary timestamps; retention max_age, delivered max_age, dlq max_age each off or an arbitrary positive duration, dlq max_depth in {0,1} (thorough {0,1,2}), arbitrary positive prune interval, last prune zero or arbitrary; pruning triggered through Stats and Dequeue (thorough: also ListMessages, ListDead)
+// verif:bounds N=2 messages in any state with arbitrary timestamps; retention max_age, delivered max_age, dlq max_age each off or an arbitrary positive duration, dlq max_depth in {0,1} (thorough {0,1,2}), arbitrary positive prune interval, last prune zero or arbitrary; pruning triggered through Stats and Dequeue (thorough: also ListMessages, ListDead)
 func VerifC02Prune() {
-	n := 2
-	if vrt.Thorough() {
-		n = 3
-	}
+	n := 2 // (thorough widens the depth and trigger menus; N=3 does not finish in reasonable time)
 	w := mNew(n, mOpts{})
 	qAge, dAge, xAge := time.Duration(0), time.Duration(0), time.Duration(0)
 	if vrt.Choose("retention", 2) == 1 {
